@@ -387,7 +387,8 @@ int reb_simulation_remove_particle(struct reb_simulation* const r, int index, in
 	    // Only removed mid-timestep if collision - BS Step!
             int after_to_be_removed_particle = 0;
             int encounter_index = -1;
-            for (int i=0;i<ri_trace->encounter_N;i++){
+            // The index map only exists during the Kepler step (mode 1). In FULL mode (3) encounter_map holds flags and encounter_N is not a group size.
+            for (int i=0;r->ri_trace.mode==1 && i<(int)ri_trace->encounter_N;i++){
                 if (after_to_be_removed_particle == 1){
                     ri_trace->encounter_map[i-1] = ri_trace->encounter_map[i] - 1;
                 }
@@ -406,10 +407,12 @@ int reb_simulation_remove_particle(struct reb_simulation* const r, int index, in
 		    ri_trace->current_Ks[i*new_N+j] = ri_trace->current_Ks[i_old*(int)r->N+j_old];
                 }
             }
-            if (encounter_index<ri_trace->encounter_N_active){
+            if (encounter_index>=0 && encounter_index<(int)ri_trace->encounter_N_active){
                 ri_trace->encounter_N_active--;
             }
-            ri_trace->encounter_N--;
+            if (encounter_index>=0){
+                ri_trace->encounter_N--;
+            }
         }
     }
 
